@@ -211,7 +211,7 @@ PROPS = {
                   ("SH", 5, has(":CC:")), ("ST", 2, None), ("GL", 1, has("GL6")),
                   ("CP", 3, has("cond_with_alloc", "condition_essential")), ("LC", 1, has("compile_cnf_with_assignments")),
                   ("LE", 7, None), ("NC", 1, has("DTree::from_cnf")), ("WC", 4, has("bdd-node")),
-                  ("CN", 1, has("Cnf::new")), ("VO", 1, has("first_essential"))],
+                  ("CN", 1, has("repr::cnf::")), ("VO", 1, has("first_essential"))],
         "explanation": "Every variant of LogicalExpr and BottomUpPlan is compiled by its namesake operation with operands in "
                        "order, a dtree becomes a conjunction of clause disjunctions of the literal's own label and polarity "
                        "with the empty clause false (DP; none of these arms is executed by the test-suite); empty-formula / "
